@@ -13,7 +13,9 @@ import (
 
 // C20: scripted evaluator / observer through the real Experiment.Execute.
 // outcomes: 0 unsolved, 1 solved, 2 evaluator error, 3 cancel (unsolved), 4 cancel and solved,
-// 5 the evaluator marks the generation solved AND returns an error, 6 it cancels AND returns an error.
+// 5 the evaluator marks the generation solved AND returns an error, 6 it cancels AND returns an error,
+// 7 the evaluator returns an error that wraps context.Canceled (its own derived context failed) while the run's
+//   context is live: still an evaluator error (the model sees outcome 2).
 
 func init() {
 	runners["C20"] = runC20
@@ -21,6 +23,9 @@ func init() {
 }
 
 var errEvalC20 = errors.New("scripted evaluator error")
+
+// an evaluator failure caused by a context of the evaluator's own
+var errEvalCtxC20 = fmt.Errorf("%w: worker pool: %w", errEvalC20, context.Canceled)
 
 type c20Input struct {
 	Obs    bool    `json:"observer"`
@@ -102,6 +107,8 @@ func (e *c20Env) GenerationEvaluate(_ context.Context, pop *genetics.Population,
 	case 6:
 		e.cancel()
 		return errEvalC20
+	case 7:
+		return errEvalCtxC20
 	}
 	return nil
 }
@@ -229,7 +236,7 @@ func c20Spec(in c20Input) (trace [][]int64, status int) {
 				return trace, 2
 			}
 			trace = append(trace, []int64{2, int64(t), int64(g), int64(t), int64(turns)})
-			if o == 2 || o == 5 || o == 6 {
+			if o == 2 || o == 5 || o == 6 || o == 7 {
 				// an evaluator error ends the run at once, whatever else the evaluator did in that call
 				return trace, 1
 			}
@@ -264,7 +271,14 @@ func traceStr(tr [][]int64) string { return fmt.Sprint(tr) }
 func c20Term(id int, in c20Input, tr [][]int64, st int) string {
 	rows := make([]string, len(in.Script))
 	for i, os := range in.Script {
-		rows[i] = IList(os)
+		ms := make([]int, len(os))
+		for k, o := range os {
+			ms[k] = o
+			if o == 7 {
+				ms[k] = 2 // the model does not distinguish evaluator errors by what they wrap
+			}
+		}
+		rows[i] = IList(ms)
 	}
 	evs := make([]string, len(tr))
 	for i, e := range tr {
@@ -331,7 +345,7 @@ func runC20(r *Run) error {
 				}
 				base := 5
 				if runs*gens <= 3 {
-					base = 7 // small scripts also over "solved and error" / "cancel and error"
+					base = 8 // small scripts also over "solved and error", "cancel and error", "error wrapping a context error"
 				}
 				total := 1
 				for i := 0; i < runs*gens; i++ {
@@ -362,7 +376,7 @@ func runC20(r *Run) error {
 			script[t] = make([]int, gens)
 			for g := range script[t] {
 				if r.Rng.Float64() < 0.25 {
-					script[t][g] = 1 + r.Rng.Intn(6)
+					script[t][g] = 1 + r.Rng.Intn(7)
 					if r.Rng.Float64() < 0.5 {
 						script[t][g] = 1
 					}
@@ -380,7 +394,7 @@ func runC20(r *Run) error {
 			script[t] = make([]int, gens)
 			for g := range script[t] {
 				if r.Rng.Float64() < 0.3 {
-					script[t][g] = 1 + r.Rng.Intn(6)
+					script[t][g] = 1 + r.Rng.Intn(7)
 				}
 			}
 		}
